@@ -90,8 +90,78 @@ def expected_payload(buf, dyn, L, lite_tx):
     return bytes(buf[:L])
 
 
+def run_threaded(case, P):
+    """lists longer than the 3-level RX FIFO: the peer's application drains in its own task while send() runs"""
+    res = Result()
+    lk = Link(case.get("drv", "full"), case.get("peer", "full"), mcu=case.get("mcu"))
+    sim, T, R, tx, rx = lk.sim, lk.T, lk.R, lk.tx, lk.rx
+    configure(case, lk)
+    dyn, L, pipe = bool(case["dyn"]), case["plen"], case["pipe"]
+    bufs = [unhex(h) for h, _t in case["calls"][0]["items"]]
+    exps = [expected_payload(b, dyn, L, lk.tx_kind == "lite") for b in bufs]
+    if any(e is None or e == "either" for e in exps):
+        res.inconclusive = "threaded variant uses valid lengths only"
+        return res
+    got = []
+    out = {}
+    from vlib.sim.core import Mcu
+
+    def receiver():
+        while True:
+            if rx.available():
+                p = rx.pipe
+                n = rx.any()
+                d = rx.read()
+                got.append((p, n, None if d is None else bytes(d)))
+            else:
+                sim.wait_irq(R, 5 * MS, 40 * US)
+
+    def main():
+        sim.spawn("rx", receiver, mcu=Mcu.from_dict(case.get("rx_mcu") or {"spi": 20}))
+        sim.advance(1 * MS)
+        objs = [bytearray(b) if t == "bytearray" else bytes(b) for b, (_h, t) in zip(bufs, case["calls"][0]["items"])]
+        out["ret"] = tx.send(objs, force_retry=case.get("force_retry", 2))
+        sim.advance(20 * MS)
+        out["same"] = all(bytes(o) == b for o, b in zip(objs, bufs))
+
+    sim.horizon = 30_000 * MS
+    try:
+        sim.run_main(main)
+    except SimHorizon:
+        res.fail(P + "/send-does-not-terminate", "threaded list send")
+        return res
+    except Exception as e:  # noqa: BLE001
+        res.fail(exc_signature(P + "/raises", e), repr(e))
+        return res
+    want = [(pipe, len(e), e) for e in exps]
+    delivered = [w for w, r in zip(want, out.get("ret") or []) if r is True]
+    if out.get("ret") != [True] * len(bufs) and case["aa"]:
+        res.label("list-item-failed")  # a slow receiver can make an item fail; then only reported-delivered items are demanded
+    if case["aa"]:
+        if [g[2] for g in got] != [w[2] for w in (want if out.get("ret") == [True] * len(bufs) else delivered)]:
+            res.fail(P + "/received-payloads-differ/long-list", "peer read %d payloads %r..., send() reported %r for %d items" % (
+                len(got), [g[2] for g in got][:3], out.get("ret"), len(bufs)))
+        elif any(g[0] != pipe for g in got):
+            res.fail(P + "/wrong-pipe", "peer saw pipes %r" % sorted({g[0] for g in got}))
+        elif any(g[1] != len(g[2]) for g in got):
+            res.fail(P + "/wrong-length-reported", "any() disagreed with the payload length")
+    else:
+        # no acknowledgements: delivery is not guaranteed to a busy receiver; what arrives must be a subsequence, in order
+        it = iter([w[2] for w in want])
+        if not all(any(x == g[2] for x in it) for g in got):
+            res.fail(P + "/received-payloads-differ/long-list", "peer read payloads that are not an in-order subsequence of what was sent")
+    if not out.get("same", True):
+        res.fail(P + "/caller-buffer-modified", "a list element was modified")
+    if len(got) >= 4:
+        res.nontrivial = True
+    res.label("threaded", "list%d" % len(bufs))
+    return res
+
+
 def run_case(case, prefix=None):
     P = prefix or PREFIX
+    if case.get("threaded"):
+        return run_threaded(case, P)
     res = Result()
     lk = Link(case.get("drv", "full"), case.get("peer", "full"), mcu=case.get("mcu"))
     sim, T, R, tx, rx = lk.sim, lk.T, lk.R, lk.tx, lk.rx
@@ -289,7 +359,32 @@ def strategy(drv="full", peer="full"):
     return case()
 
 
+def threaded_strategy(drv="full", peer="full"):
+    from hypothesis import strategies as st
+
+    @st.composite
+    def case(draw):
+        c = draw(strategy(drv, peer))
+        c.pop("pingpong", None)
+        c.pop("perpipe", None)
+        L = c["plen"]
+        n = draw(st.integers(4, 12))
+        items = []
+        for i in range(n):
+            ln = draw(st.integers(1, 32))
+            body = bytes([i]) + draw(st.binary(min_size=ln - 1, max_size=ln - 1))
+            items.append([body.hex(), draw(st.sampled_from(["bytes", "bytearray"]))])
+        c["calls"] = [{"form": "list", "items": items}]
+        c["threaded"] = True
+        c["ana"] = False
+        c["rx_mcu"] = {"spi": draw(st.sampled_from([8, 20, 50, 100])), "jit": draw(st.sampled_from([0, 30])), "seed": draw(st.integers(0, 99))}
+        c["force_retry"] = draw(st.integers(1, 3))
+        return c
+
+    return case()
+
+
 def parts(tier):
     if tier == "quick":
-        return [Part("generated", "gen", strategy, n=3000)]
-    return [Part("generated", "gen", strategy, n=150000)]
+        return [Part("generated", "gen", strategy, n=3000), Part("long-lists-threaded-receiver", "gen", threaded_strategy, n=400)]
+    return [Part("generated", "gen", strategy, n=150000), Part("long-lists-threaded-receiver", "gen", threaded_strategy, n=5000)]
